@@ -29,6 +29,8 @@
 #  include "ares_verif.h"
 void (*ares_verif_now_cb)(long long *sec, unsigned int *usec)  = NULL;
 void (*ares_verif_rand_cb)(unsigned char *buf, size_t len)      = NULL;
+void (*ares_verif_sync_cb)(int kind, const void *obj, const void *aux) = NULL;
+void (*ares_verif_phase_cb)(int phase, unsigned long arg)              = NULL;
 #endif
 
 #if defined(_WIN32) && !defined(MSDOS)
